@@ -94,6 +94,7 @@ func rotateFiles(fileMap KeyIDFileMap, keyStore RotateStorageKeyStore, dryRun bo
 	if !dryRun {
 		if err := rotator.saveRotatedKeys(); err != nil {
 			log.WithError(err).Errorln("Can't save rotated keys")
+			return nil, err
 		}
 	}
 	return output, nil
